@@ -508,25 +508,25 @@ def _length_first(ctx) -> None:
             if any(pol and any(x[0] == "call" and x[1][0] == "attr" and x[1][2] == "ndims" for x in subterms(t)) for t, pol in fc):
                 continue                                         # table cases A / B
 
-            def isinst(t, cls):
-                return t[0] == "call" and t[1] == ("name", "isinstance") and len(t[2]) == 2 and t[2][0] in others and t[2][1] == ("name", cls)
-            def seq_form(t) -> bool:
-                """does t (taken true) say: the operand is a vector or a non-string iterable?"""
-                if isinst(t, "Vector") or isinst(t, "Iterable"):
-                    return True
-                if t[0] == "bool" and t[1] == "and":
-                    return any(seq_form(x) for x in t[2])
-                if t[0] == "bool" and t[1] == "or":
-                    return all(seq_form(x) for x in t[2])
-                return False
+            # by kind of operand (three-valued evaluation of the path condition, serifscan/tv.py): a result that a vector or a plain
+            # sequence can reach must lie behind the length comparison; a result only a scalar (a number, a string: one cell) reaches
+            # needs none
+            from ..tv import tv as _tv
+            KN = {"Vector": {"Vector", "Iterable", "Sized", "Collection", "Sequence"}, "list": {"list", "Iterable", "Sized", "Collection", "Sequence"},
+                  "int": {"int"}, "str": {"str", "Iterable", "Sized", "Collection", "Sequence"}}
+            ALL = {"Vector", "Table", "Row", "list", "tuple", "str", "bytes", "bytearray", "int", "float", "complex", "Enum", "Mapping", "dict",
+                   "Iterable", "Iterator", "Sized", "Collection", "Sequence", "range", "set"}
 
-            def scalar_form(t, pol) -> bool:
-                """does (t, pol) say: the operand is not an iterable (or is a string: one cell)?"""
-                if not pol:
-                    return any(isinst(x, "Iterable") for x in subterms(t)) and not isinst(t, "Vector")
-                return t[0] == "bool" and t[1] == "or" and any(x[0] == "un" and x[1] == "Not" and isinst(x[2], "Iterable") for x in t[2])
-            in_seq = any(pol and seq_form(t) for t, pol in fc)
-            scalar = any((not pol) and isinst(t, "Vector") for t, pol in fc) and any(scalar_form(t, pol) for t, pol in fc)
+            def reach(kind):
+                def atom(x):
+                    if x[0] == "call" and x[1] == ("name", "isinstance") and len(x[2]) == 2 and x[2][0] in others:
+                        names = {y[1] for y in subterms(x[2][1]) if y[0] == "name"}
+                        if names & KN[kind]:
+                            return True
+                        return False if names and names <= ALL else None
+                    return None
+                return not any(_tv(t, atom) is (not pol) for t, pol in fc)
+            in_seq = reach("Vector") or reach("list")
             if in_seq:
                 ln_s = ("call", ("name", "len"), (SELF,), ())
                 checked = any(pol and t[0] == "cmp" and t[1] == "Eq" and ln_s in (t[2], t[3])
@@ -535,9 +535,9 @@ def _length_first(ctx) -> None:
                     problems.append(f"`return {show(e.term, it)[:60]}` (line {getattr(e.node, 'lineno', '?')}) returns a result for a "
                                     f"vector/sequence operand before `len(self) != len({f.params[1]})` has been checked: different lengths "
                                     f"would not raise")
-            elif not scalar:
-                problems.append(f"`return {show(e.term, it)[:60]}` (line {getattr(e.node, 'lineno', '?')}) returns before the operand form is "
-                                f"known and the lengths compared")
+            elif not (reach("int") or reach("str")):
+                problems.append(f"`return {show(e.term, it)[:60]}` (line {getattr(e.node, 'lineno', '?')}) is reached by no operand form the "
+                                f"evaluation knows (vector, plain sequence, number, string)")
         seen = set()
         problems = [p_ for p_ in problems if not (p_ in seen or seen.add(p_))]
         ctx.ob("b.length-before-result", f, "returns", not problems, "every result for a sequence operand follows the length comparison",
